@@ -7,6 +7,7 @@ below (cross-checked against CPython's zoneinfo loader at generation time), neve
 synthetic zones the model is invented first and the bytes are written from it (writer of gen/C16.py)."""
 import os
 import struct
+import zlib
 
 from vcheck import case_line
 from common import *
@@ -158,6 +159,12 @@ class ZM:
         else:
             rv = ('some', [r[1], r[2], day_val(r[3]), r[4], day_val(r[5]), r[6]])
         return [self.first, [[t, o] for t, o in self.trans], rv]
+
+    def tagged(self, src):
+        """ZM with the checksum that binds it to the zone source of the case line"""
+        from vcheck import show_val
+        v = self.val()
+        return v + [zlib.adler32((show_val(src) + ' ' + show_val(v)).encode('ascii'))]
 
     def rule_events(self, y):
         """[(instant, offset before, offset after)] of the rule in year y"""
@@ -329,7 +336,7 @@ def show(v):
 
 def emit(src, zm, ins, walls, batch, rt_share, rng):
     """case lines of one zone; the zone part of the line is rendered once"""
-    head = ' ' + show(src) + ' ' + show(zm.val()) + ' '
+    head = ' ' + show(src) + ' ' + show(zm.tagged(src)) + ' '
     memo = {}
 
     def spaced(x):
@@ -511,10 +518,10 @@ def ordered_cases(tier, rng):
         ins, walls = zone_points(zm, rng, 0, rule_years(zm, [2100]), 3)
         rng.shuffle(ins)
         rng.shuffle(walls)
-        yield case_line('lz.env', data, zm.val(), 0, ins[:20])
+        yield case_line('lz.env', data, zm.tagged(data), 0, ins[:20])
         ws = [w for w in walls[:40] if zm.spaced(w)][:20]
         if ws:
-            yield case_line('lz.env', data, zm.val(), 1, ws)
+            yield case_line('lz.env', data, zm.tagged(data), 1, ws)
 
 
 def refine(cases, impl, model, verdicts, run_both):
